@@ -27,6 +27,8 @@ import onnx
 
 from harness import serde_common as sc
 from harness import serde_meta as sm
+from harness import scope_ext9 as sx9
+from harness import scope_attr as sa
 from harness.common import Ctx, Part, lean_batch, load_corpus, pmap
 
 THEOREMS = [
@@ -56,6 +58,14 @@ THEOREMS = [
     "IrVerif.Scope.C17_idempotent_ext_model",
     "IrVerif.Scope.C17_ext_sharding_resolved",
     "IrVerif.Scope.C17_ext_sharding_resolved_model",
+    "IrVerif.Scope.C17_ext9_erasure",
+    "IrVerif.Scope.C17_ext9_entries_inert",
+    "IrVerif.Scope.C17_idempotent_ext_ir9_partial",
+    "IrVerif.Scope.C17_ext9_reloadable",
+    "IrVerif.Scope.C17_attr_idempotent",
+    "IrVerif.Scope.C17_attr_subs",
+    "IrVerif.Scope.C17_attr_wf",
+    "IrVerif.Scope.C17_idempotent_attrs",
 ]
 ASSUMPTIONS = [
     "byte-level parsing is protobuf's; Python RecursionError counts as 'raises'",
@@ -95,6 +105,7 @@ ASSUMPTIONS = [
     "C17_total is a case split on Except (termination = Lean accepted the structural recursion)",
     "time limit = 20 s CPU time of the worker (ITIMER_PROF) with a 6x wall-clock backstop; an expiry is "
     "re-run once and only a second expiry is reported",
+    "attribute layer (Model/ScopeAttr.lean; harness/scope_attr.py): the payload of a non-graph attribute is ONE opaque token = deterministic bytes of an AttributeProto holding only the payload field of the attribute's type; stray payload fields of other types are not in the abstraction; TENSOR(S) / TYPE_PROTO(S) payloads are normalised through their leaf codec and the leaf decoders are the identity on tokens (leafOk = the leaf decoder alone accepts the payload; STRINGS: UTF-8 checked by the harness); the placement of the attribute trees against the core trees (NodeP.subs = subsOfP of the survivors, NodeT.subs = subsOfS) is compared on every case (shape of the tree of graphs), not proved against the core model; AErr.unknownType is unreachable from python-protobuf (a number outside the closed enum reads as 0)",
 ]
 
 TIME_LIMIT_S = 20.0
@@ -1008,6 +1019,9 @@ def run_case(part, m: onnx.ModelProto, stream: str, want_model: bool, lean_reqs:
     # ---- the other public entry points (a fifth of the cases, chosen by content)
     if zlib.crc32(_det(m)) % 5 == 0:
         run_entrypoints(part, m, case)
+    # ---- attribute layer (Model/ScopeAttr.lean): every case of the field stream
+    if want_model:
+        sa.c17_request(part, m, lean_reqs, pending, case, model, err, q, flags.get("_q2"))
     # ---- decoration layer (Model/ScopeMeta.lean): every case the core abstraction covers
     if gp is not None:
         try:
@@ -1037,6 +1051,7 @@ def run_case(part, m: onnx.ModelProto, stream: str, want_model: bool, lean_reqs:
         part.count("model_ir9_with_functions")
         lean_reqs.append({"m": "scope.mdeser9", "fixed": True, **mp9})
         pending.append((case, dict(flags, with_functions=1, ir9=1), model, err, q))
+        sx9.queue_c17(part, m, case, flags, model, err, q, lean_reqs, pending)
     # ---- model
     if gp is not None and mp is not None:
         part.count("model_with_functions")
@@ -1393,10 +1408,14 @@ def _flush(part, lean_reqs: list, pending: list) -> None:
     runs tens of thousands of cases per worker)"""
     outs = lean_batch(lean_reqs)
     for out, p in zip(outs, pending):
-        if p[0] == "D":
+        if p[0] == "A":
+            sa.c17_diff(part, out, *p[1:])
+        elif p[0] == "D":
             diff_deco(part, out, *p[1:])
         elif p[0] == "E":
             diff_ext(part, out, *p[1:])
+        elif p[0] == "E9":
+            sx9.diff_c17(part, out, *p[1:])
         else:
             diff_case(part, out, *p)
     lean_reqs.clear()
@@ -1428,9 +1447,13 @@ def _worker(args) -> Part:
         if rng.random() < 0.3:
             mutate_ext(rng, m, hist)
             hist["ext_mutated"] = hist.get("ext_mutated", 0) + 1
+        sa.mutate_attrs_c17(m, hist)  # attribute layer: duplicate names, all kinds, reference attributes, ...
         if len(valid_pool) < 40:
             valid_pool.append(_det(m))
         run_case(part, m, "field", True, lean_reqs, pending)
+        x9 = sx9.derive_case(m, hist)
+        if x9 is not None:
+            run_case(part, x9, "field", True, lean_reqs, pending)
         if len(lean_reqs) >= 2000:
             _flush(part, lean_reqs, pending)
     for _ in range(n_bytes):
@@ -1456,6 +1479,7 @@ def run(ctx: Ctx) -> None:
     )
     for obj in load_corpus("C17"):
         replay(ctx, obj)
+    sa.c17_odd_stream(ctx, ctx.pick(300, 6000))  # attribute layer: the error paths of _deserialize_attribute
     shards = 16
     n_field = ctx.pick(3200, 200000) // shards
     n_bytes = ctx.pick(1600, 100000) // shards
@@ -1481,12 +1505,19 @@ def replay(ctx: Ctx, obj: dict) -> None:
     for case in _replay_cases(obj):
         m = onnx.ModelProto()
         m.ParseFromString(binascii.unhexlify(case["proto_hex"]))
+        if case.get("stream") == "attr":
+            sa.c17_odd_case(part, m, reqs, pending)
+            continue
         run_case(part, m, case.get("stream", "field"), case.get("stream", "field") == "field", reqs, pending)
     for out, p in zip(lean_batch(reqs), pending):
-        if p[0] == "D":
+        if p[0] == "A":
+            sa.c17_diff(part, out, *p[1:])
+        elif p[0] == "D":
             diff_deco(part, out, *p[1:])
         elif p[0] == "E":
             diff_ext(part, out, *p[1:])
+        elif p[0] == "E9":
+            sx9.diff_c17(part, out, *p[1:])
         else:
             diff_case(part, out, *p)
     ctx.merge(part)
